@@ -457,4 +457,10 @@ def rule_k(ctx: Ctx) -> None:
                 'dependent on `prev_ancestors != ancestors`.')
 
 
-RULES = [rule_a, rule_b, rule_c, rule_d, rule_e, rule_f, rule_g, rule_h, rule_i, rule_j, rule_k]
+def rule_l(ctx: Ctx) -> None:
+    """Lazy and full validation report an error at the same path - C19.l body."""
+    from .c19 import lazy_path_kept
+    lazy_path_kept(ctx, 'C06.l')
+
+
+RULES = [rule_a, rule_b, rule_c, rule_d, rule_e, rule_f, rule_g, rule_h, rule_i, rule_j, rule_k, rule_l]
